@@ -120,7 +120,7 @@ func drawCall(r *rand.Rand, p *circParams, live *liveCfg) *callSpec {
 }
 
 func drawEnd(r *rand.Rand, id int, failBias int) circOp {
-	o := circOp{K: "endrun", ID: id, RK: r.Intn(4), SO: r.Intn(2) == 0, SC: r.Intn(2) == 0}
+	o := circOp{K: "endrun", ID: id, RK: r.Intn(10), SO: r.Intn(2) == 0, SC: r.Intn(2) == 0}
 	switch x := r.Intn(100); {
 	case x < failBias:
 		o.Res = "err"
@@ -137,7 +137,7 @@ func drawEnd(r *rand.Rand, id int, failBias int) circOp {
 }
 
 func drawEndFb(r *rand.Rand, id int) circOp {
-	return circOp{K: "endfb", ID: id, RK: r.Intn(4), Res: hc.Pick(r, "fnil", "fnil", "ferr", "ferr", "fpanic")}
+	return circOp{K: "endfb", ID: id, RK: r.Intn(10), Res: hc.Pick(r, "fnil", "fnil", "ferr", "ferr", "fpanic")}
 }
 
 func (circFamily) Gen(r *rand.Rand, i int, tier string) *hc.Case {
@@ -355,6 +355,11 @@ func (circFamily) Exec(c *hc.Case) {
 		bounds = append(bounds, len(h.ev))
 	}
 	h.finish()
+	if h.hung {
+		c.Viol = append(c.Viol, hc.Violation{Clause: "C12: a circuit driven by a substitute clock behaves identically whatever the wall clock says", Detail: "a call neither parked in the harness's function nor returned within 15 s of being driven (it blocked, or something other than the substitute clock decided its fate)", AtOp: len(c.Outs) - 1})
+		c.Viol = append(c.Viol, hc.Violation{Clause: "C18: Go returns as soon as the run function finishes, or as soon as the caller's context or the execution timeout ends", Detail: "a call neither parked nor returned within 15 s of being driven", AtOp: len(c.Outs) - 1})
+		tags["harness:hung"] = true
+	}
 	circMonitors(c, h, ops, bounds, clocks, tags)
 	asIfAbsent(c, &p, ops, tags)
 	for t := range tags {
